@@ -111,6 +111,30 @@ static std::string do_str(const std::string& api, const std::string& fmt,
 {
     bool use_cstr = api == "cfmt";
     F f = use_cstr ? nitro::format(fmt.c_str()) : nitro::format(fmt);
+    if ((api == "pct+more" || api == "copy+more") && !args.empty())
+    {
+        // the text is rendered once before the last argument is added (to the same object, or to a copy of it):
+        // the final rendering has to be that of all the arguments
+        for (std::size_t i = 0; i + 1 < args.size(); i++)
+            std::visit([&](auto&& x) { f % x; }, args[i]->v);
+        try
+        {
+            (void)f.str();
+            std::ostringstream o;
+            o << f;
+        }
+        catch (std::exception&)
+        {
+        }
+        if (api == "pct+more")
+        {
+            std::visit([&](auto&& x) { f % x; }, args.back()->v);
+            return render("pct", f);
+        }
+        F g = f;
+        std::visit([&](auto&& x) { g % x; }, args.back()->v);
+        return render("pct", g);
+    }
     bool variadic = api.rfind("args", 0) == 0;
     if (!variadic || args.size() > 3)
     {
